@@ -73,11 +73,17 @@ Definition model_ok (c : acase) (P : project) (r0 r : arun) : bool :=
   is_permb (run_pi r) (length (p_files P))
   && forallb (fun k => same_ids (sparse_get k (run_sets r0)) (sparse_get k (run_sets r))) (seq 0 n_sets)
   && forallb (fun kv => opt_eqb str_eqb (ident_in st (fst kv)) (Some (snd kv))) (run_impl r)
-  && forallb (fun id => match impl_get id (run_impl r) with Some _ => true | None => false end) (ent_ids P).
+  && forallb (fun kv => match impl_get (fst kv) (run_impl r) with Some _ => true | None => false end) e.
 
 Definition agree (r0 r : arun) : bool :=
   (length (run_impl r0) =? length (run_impl r))
   && forallb (fun kv => opt_eqb str_eqb (impl_get (fst kv) (run_impl r0)) (Some (snd kv))) (run_impl r).
+
+(* the region predicate, evaluated on the entity table (every entity of the table is requested
+   somewhere, so this is no_clashb of the project, computed with one key per entity) *)
+Definition ents_clash_free (e : ents) : bool :=
+  let keyed := map (fun kv => (fst kv, (fst (snd kv), final_name (snd (snd kv))))) e in
+  forallb (fun a => forallb (fun b => Nat.eqb (fst a) (fst b) || negb (key_eqb (snd a) (snd b))) keyed) keyed.
 
 Definition judge (c : acase) : nat :=
   let P := project_of c in
@@ -86,7 +92,7 @@ Definition judge (c : acase) : nat :=
   | r0 :: rs =>
     verdict (negb (forallb (model_ok c P r0) (r0 :: rs)))
             (negb (forallb (agree r0) rs))
-            (if no_clashb P then 0 else 1)
+            (if ents_clash_free (fst (fst c)) then 0 else 1)
   end.
 
 (* which run of a case disagrees with the model (for the replay file) *)
